@@ -18,4 +18,23 @@ func GetPBFTFallbackThreshold(consensusSize int) (r int)
   requires 0 <= consensusSize && consensusSize <= 4611686018427387903
   ensures  half-plus-one: r == consensusSize/2 + 1
   assigns  nothing
+
+func IsMetachainIdentifier(identifier []byte) (r bool)
+  pure
+  ensures all-255: r ==> len(identifier) > 0 && (forall k :: 0 <= k && k < len(identifier) ==> identifier[k] == 255)
+
+loop 1
+  invariant 0 <= i && i <= len(identifier)
+  invariant forall k :: 0 <= k && k < i ==> identifier[k] == 255
+
+func IsEmptyAddress(address []byte) (r bool)
+  pure
+
+func IsSmartContractAddress(rcvAddress []byte) (r bool)
+  pure
+  ensures long-enough: r ==> len(rcvAddress) > 10
+
+func IsSmartContractOnMetachain(identifier []byte, rcvAddress []byte) (r bool)
+  pure
+  ensures is-sc-with-meta-id: r ==> len(rcvAddress) > 25 && IsMetachainIdentifier(identifier) && IsSmartContractAddress(rcvAddress)
 @*/
